@@ -884,6 +884,14 @@ def mutate(rng, b, per_kind=2):
         out.append(("break", b[:i.start] + b"\xff" + b[i.start:]))
     for i in pick(items):
         out.append(("subst", b[:i.start] + bytes([rng.choice([0xf6, 0xf7, 0xff, 0x00, 0x80, 0xa0, 0x40, 0x60, 0xf8, 0x1c])]) + b[i.end:]))
+    # … or by a float: 2^64 (the first value a u64 cannot hold), 2^63, infinities, NaN, -0.0, in all three widths
+    for i in pick(items):
+        f = rng.choice(["fa5f800000", "fb43f0000000000000", "fa5f000000", "fb43e0000000000000", "f97c00", "f9fc00", "f97e00", "fa7f800000", "fa80000000",
+                        "fb7ff0000000000000", "fb7ff8000000000000", "fa4f800000", "fb41f0000000000000", "f93c00", "fb3ff0000000000000"])
+        out.append(("subst", b[:i.start] + bytes.fromhex(f) + b[i.end:]))
+        if i is root:
+            for f2 in ("fa5f800000", "fb43f0000000000000", "fb7ff0000000000000", "f97e00"):
+                out.append(("subst", bytes.fromhex(f2)))
     # replace an integer item by a boundary value at the 8-byte width (the typed position stays an integer)
     for i in pick([i for i in items if i.major in (0, 1) and not i.indef]):
         for v in (2**63 - 1, 2**63, 2**64 - 1, 2**32, 2**31):
